@@ -52,6 +52,35 @@ CLAIMED = {
              "(33,792 inputs); every one is replayed and the result / ExtraKeysError.extra_keys / MissingField.field_name compared.",
         note="Exhaustive for two fields and the three alias sources; class-level discriminator keys are covered in C12's check.", 
         tech="exhaustive TLC enumeration replayed into the code", ref="6 C09"),
+    "C10": dict(
+        text="Winner(T, cx, dir) in TLA+ is the documented precedence (field option > field strategy > lexicographic (type-key specificity, level)); "
+             "TLC enumerates every subset of the 11 simultaneous registrations (2^11 classes, both directions) plus the variants in which one registration is "
+             "ser-only / deser-only / pass_through, proves ExactlyOne, and every state is replayed: the marker in the real output must name the predicted winner. "
+             "Codec entry point: default_dialect x 5^3 mode assignments of the three keys.",
+        note="Format-mixin dialect level is covered at the codec entry point only (DataClassDictMixin has no format dialect).",
+        tech="exhaustive TLC enumeration of customization subsets replayed into the code", ref="6 C10"),
+    "C12": dict(
+        text="State machine MC_C12 (Define / CreateDecoder / Deserialize with a lazily filled tag registry) checked by TLC for VariantChoice (the registry implements the abstract "
+             "'eligible class carrying the tag among the classes defined so far'), RegistrySound and NoInheritedTag over ALL histories of length <= 4 (quick) / 5 (thorough), for "
+             "3 sites (Config, Annotated field, codec) x field/no-field x include_supertypes; every maximal history is replayed on fresh classes. A deviant registry walk is refuted by TLC (sensitivity).",
+        note="Unique tags per hierarchy; class-level discriminators without include_supertypes (documented restriction).",
+        tech="TLA+ state machine, exhaustive TLC exploration, behaviours replayed into the code", ref="6 C12"),
+    "C13": dict(
+        text="sys/Mashumaro.tla models per-class dialect caches and dispatch; TLC proves Faithful/CacheOwn over all call histories (C, S<C x to/from x {none,D1,D2,D3}) and IsolationEq "
+             "(call with dialect D == family twin with default dialect D) on the reference semantics; every history is replayed on fresh classes and every (class, direction, dialect) "
+             "is compared with a freshly built real twin. Second half: default_dialect x 6 options x 5 format codecs must parse to the BasicEncoder document.",
+        note="The deviant 'cache found through the parent class' is refuted by TLC (recorded in evidence.selftests).",
+        tech="TLA+ state machine + exhaustive behaviours replayed into the code; cross-codec comparison", ref="6 C13"),
+    "C14": dict(
+        text="Same state machine with lazily compiled classes (stub -> compile -> install): every history of calls x dialects on lazy C / lazy nested Inner / both must give the outcome of the "
+             "history-free reference (== eager twin). Forward references, generic specialisations and thread schedules are driven by harness/checks/c14_extra.py.",
+        note="Thread schedules: forced at line granularity via sys.settrace for a bounded number of seeded schedules; intra-line preemption only by free-running stress.",
+        tech="TLA+ state machine + exhaustive behaviours replayed; seeded forced thread schedules", ref="6 C14"),
+    "C15": dict(
+        text="CreateCodec / CodecCall actions interleaved with class definitions and mixin calls: TLC checks CodecPure (action property) and every history is replayed; mixin result, "
+             "codec result and the reference outcome must agree at every step, class namespaces are snapshotted around codec creation (drift).",
+        note="Entry-point agreement for arbitrary nested positions (List[D], Dict[str,D], Optional, Outer.f) is additionally covered by the holder types of C01-C03.",
+        tech="TLA+ state machine + exhaustive behaviours replayed into the code", ref="6 C15"),
 }
 REASON_PENDING = "check not built yet in this round (construction order DESIGN.md 11); not claimed"
 
